@@ -57,6 +57,7 @@ __all__ = [
 
 import errno
 import os
+import stat
 import sys
 import types
 import warnings
@@ -1170,8 +1171,7 @@ class DiskRefsContainer(RefsContainer):
         prefix = realname + b"/"
         if any(ref.startswith(prefix) for ref in packed_refs):
             raise IsADirectoryError(filename)
-        with suppress(OSError):
-            os.rmdir(filename)
+        _remove_empty_directories(filename)
         ensure_dir_exists(os.path.dirname(filename))
 
     def _prune_loose_ref(self, name: Ref, expected: ObjectID | None) -> None:
@@ -1542,9 +1542,8 @@ class DiskRefsContainer(RefsContainer):
         """
         self._check_refname(name)
         filename = self.refpath(name)
-        with suppress(OSError):
-            # an empty directory left behind at the path of the ref
-            os.rmdir(filename)
+        # empty directories left behind at the path of the ref
+        _remove_empty_directories(filename)
         f = _lock_loose_ref_file(filename)
         try:
             if old_ref is not None:
@@ -1635,6 +1634,22 @@ class DiskRefsContainer(RefsContainer):
 
         if refs_to_pack:
             self._add_packed_refs(refs_to_pack, verify_loose=True)
+
+
+def _remove_empty_directories(path: bytes) -> None:
+    """Remove the empty directories, nested or not, found at a path.
+
+    Directories that hold anything but empty directories stay, and symbolic
+    links are never followed.
+    """
+    try:
+        if not stat.S_ISDIR(os.lstat(path).st_mode):
+            return
+    except OSError:
+        return
+    for dirpath, _dirnames, _filenames in os.walk(path, topdown=False):
+        with suppress(OSError):
+            os.rmdir(dirpath)
 
 
 def _split_ref_line(line: bytes) -> tuple[ObjectID, Ref]:
